@@ -20,11 +20,13 @@ Definition cfb_inverse (cfb_enc cfb_dec : Z -> bytes -> bytes -> option bytes) :
   forall a k x c, cfb_enc a k x = Some c -> cfb_dec a k c = Some x.
 Definition cfb_keeps_length (cfb_dec : Z -> bytes -> bytes -> option bytes) : Prop :=
   forall a k c x, cfb_dec a k c = Some x -> length x = length c.
-(* PKCS#1 v1.5: the ciphertext is an octet string of modulus size, decryption inverts encryption (any randomness) *)
+(* PKCS#1 v1.5: the ciphertext is an octet string of the length of the modulus in octets -- (bits + 7) / 8, the modulus need not
+   be a multiple of 8 bits long; this is the length the RSA primitive of `cryptography` (the harness oracle) returns --,
+   decryption inverts encryption (any randomness); the ciphertext fits a multiprecision integer *)
 Definition rsa_correct (rsa_bits : bytes -> Z) (rsa_enc : bytes -> bytes -> bytes -> option bytes)
                        (rsa_dec : bytes -> bytes -> option bytes) : Prop :=
   forall h seed m c, rsa_enc h seed m = Some c ->
-    wf_bytes c /\ Z.of_nat (length c) = rsa_bits h / 8 /\ rsa_bits h < 65536 /\ rsa_dec h c = Some m.
+    wf_bytes c /\ Z.of_nat (length c) = (rsa_bits h + 7) / 8 /\ rsa_bits h + 7 < 65536 /\ rsa_dec h c = Some m.
 (* Diffie-Hellman: the recipient computes the sender's shared secret from the ephemeral public point *)
 Definition ecdh_agrees (ecdh_gen : bytes -> bytes -> option (bytes * bytes)) (ecdh_shared : bytes -> bytes -> option bytes) : Prop :=
   forall h seed v s, ecdh_gen h seed = Some (v, s) -> ecdh_shared h v = Some s.
@@ -174,6 +176,16 @@ Theorem C03_pad_to_40_eq_rfc : forall m, pkcs5_pad_to 40 m = rfc_pad40 m.
 Proof. exact pad_to_40. Qed.
 Print Assumptions C03_pad_to_40_eq_rfc.
 
+(* regression (repair 9a4ce40): the width used before, bits / 8, is one octet short for a modulus that is no multiple of 8 bits
+   long; a ciphertext with a leading zero octet then reached the primitive too short (15-bit toy modulus, ciphertext 00 05) *)
+Theorem C03_rsa_pad_old_refuted :
+  rsa_ct_padded (15 / 8) (bytes_to_int [0; 5]) = [5] /\ rsa_ct_padded ((15 + 7) / 8) (bytes_to_int [0; 5]) = [0; 5] /\
+  let bits := fun _ : bytes => 15 in
+  let dec := fun (_ c : bytes) => if (length c =? 2)%nat then Some c else None in
+  rsa_decrypt_m_old bits dec [] (bytes_to_int [0; 5]) = Raise EPrim /\ rsa_decrypt_m bits dec [] (bytes_to_int [0; 5]) = Ok [0; 5].
+Proof. exact rsa_pad_old_refuted. Qed.
+Print Assumptions C03_rsa_pad_old_refuted.
+
 (* ---------- symmetric-key encrypted session key ---------- *)
 (* any algorithm octet in front of the session key (PGPy writes its own cipher; others write a different one) *)
 Theorem C03_skesk_roundtrip : forall cfb_enc cfb_dec s2k, cfb_inverse cfb_enc cfb_dec -> cfb_keeps_length cfb_dec ->
@@ -235,12 +247,15 @@ Print Assumptions C03_message_roundtrip_pass.
 
 (* ---------- packet codecs: from octets to octets ---------- *)
 (* shape of the data the emitter is used on: 8-octet key ids; RSA values / EC points (04||X||Y or 40||X) that fit an
-   MPI; wrapped key shorter than 256 octets; S2K specifiers simple / salted / iterated with an 8-octet salt *)
+   MPI; wrapped key shorter than 256 octets; ANY octets under an algorithm id without ciphertext class (another
+   recipient's session key: every id but 1, 2, 16, 18, 20 -- listed in PubKeyAlgorithm or not); S2K specifiers simple /
+   salted / iterated with an 8-octet salt *)
 Definition C03_wf_pkct (a : Z) (ct : pkct) : Prop :=
   match ct with
   | CRsa v => (a = 1 \/ a = 2) /\ 0 <= v /\ bit_length v < 65536
   | CEcdh xy c => a = 18 /\ wf_bytes xy /\ Z.of_nat (length xy) <= 8000 /\ (length c < 256)%nat /\
                   exists r, (xy = 4 :: r /\ Nat.even (length r) = true) \/ xy = 64 :: r
+  | COpaque x => pk_class a = false
   | _ => False
   end.
 Definition C03_wf_spec (sp : s2kspec) : Prop :=
@@ -260,6 +275,34 @@ Theorem C03_msg_codec_roundtrip : forall es c b,
   msg_parse b = Ok (es, Some c).
 Proof. exact msg_codec_roundtrip. Qed.
 Print Assumptions C03_msg_codec_roundtrip.
+
+(* a session key packet PGPy cannot use itself (algorithm without ciphertext class, listed or not; any octets after the
+   algorithm octet) is read back exactly as written, the packets after it untouched: it stays in the message for its
+   recipient (repairs 3c26ab3, 0f569a7, f2ab7da) *)
+Theorem C03_opaque_pkesk_roundtrip : forall id a x p rest fuel acc ct,
+  length id = 8%nat -> pk_class a = false -> esk_packet (PK id a (COpaque x)) = Ok p -> Z.of_nat (length p) < 4294967296 ->
+  msg_parse_loop (S fuel) (p ++ rest) acc ct = msg_parse_loop fuel rest (acc ++ [PK id a (COpaque x)]) ct.
+Proof. exact opaque_pkesk_roundtrip. Qed.
+Print Assumptions C03_opaque_pkesk_roundtrip.
+Theorem C03_opaque_pkesk_alone : forall id a x p,
+  length id = 8%nat -> pk_class a = false -> esk_packet (PK id a (COpaque x)) = Ok p -> Z.of_nat (length p) < 4294967296 ->
+  msg_parse p = Ok ([PK id a (COpaque x)], None).
+Proof. exact opaque_pkesk_alone. Qed.
+Print Assumptions C03_opaque_pkesk_alone.
+Example C03_opaque_premises : pk_class 22 = false /\ pk_class 100 = false /\ pk_class 0 = false /\
+  exists p, esk_packet (PK [1; 2; 3; 4; 5; 6; 7; 8] 100 (COpaque [7; 8; 9])) = Ok p.
+Proof. repeat split. eexists. vm_compute. reflexivity. Qed.
+(* regression: the reader before these repairs lost the octets of a listed algorithm without class (here it did not even
+   take them off the buffer) and wrote zeros for them, and refused an unlisted algorithm id -- and the message with it *)
+Theorem C03_pkesk_parse_old_refuted :
+  let h := {| h_lenfmt := 1; h_tag := 1; h_llen := 1; h_len := 13 |} in
+  let id := [1; 2; 3; 4; 5; 6; 7; 8] in
+  pkesk_parse_old h (id ++ [22; 7; 8; 9]) = Ok (PK id 22 (COpaque [0; 0; 0]), [7; 8; 9]) /\
+  pkesk_parse_old h (id ++ [100; 7; 8; 9]) = Raise EPGP /\
+  pkesk_parse h (id ++ [22; 7; 8; 9]) = Ok (PK id 22 (COpaque [7; 8; 9]), []) /\
+  pkesk_parse h (id ++ [100; 7; 8; 9]) = Ok (PK id 100 (COpaque [7; 8; 9]), []).
+Proof. exact pkesk_parse_old_refuted. Qed.
+Print Assumptions C03_pkesk_parse_old_refuted.
 
 Definition ecdh_point_encoded (ecdh_gen : bytes -> bytes -> option (bytes * bytes)) : Prop :=
   forall h seed v s, ecdh_gen h seed = Some (v, s) ->
